@@ -148,6 +148,9 @@ func digestMeta(store *stor.Stor, m *meta.Meta, rt *db19.ReadTran) (dig string, 
 			} else if s != first {
 				agree = 0
 			}
+			if agree == 0 && os.Getenv("VERIF_DEBUG") != "" {
+				fmt.Fprintln(os.Stderr, "DISAGREE table", name, "index", i, s, "first", first, "btnrows", ti.BtreeNrows, "btsize", ti.BtreeSize, "nrows", ti.Nrows, "deltas", ti.Deltas, "nlayers", ov.Nlayers())
+			}
 		}
 	}
 	var views []string
@@ -239,6 +242,20 @@ func adminOp(r *rand.Rand) {
 	var cmd string
 	pick := func() tbl { return ts[r.Intn(len(ts))] }
 	op := r.Intn(12)
+	if len(ts) > 0 && r.Intn(25) == 0 {
+		// empty the schema completely (views first, then tables; foreign key targets last)
+		for name := range db.GetState().Meta.Views() {
+			res := try(func() { query.DoAdmin(db, "drop "+name, nil) })
+			tr.Emit(vh.E("Admin", "cmd", "drop "+name, "res", res))
+		}
+		for pass := 0; pass < 3; pass++ {
+			for _, t := range currentTables() {
+				res := try(func() { query.DoAdmin(db, "drop "+t.name, nil) })
+				tr.Emit(vh.E("Admin", "cmd", "drop "+t.name, "res", res))
+			}
+		}
+		return
+	}
 	if len(ts) == 0 || (op < 3 && len(ts) < 5) {
 		extra := ""
 		switch r.Intn(5) {
